@@ -251,9 +251,15 @@ func Main(prop string, rule string, plan Plan, casesQuick int, corpus [][]string
 	r.Rule = rule
 	r.MaxSamples = 2
 	x := &Runner{R: r, Prop: prop}
+	finish := func() {
+		if prop == "C03" {
+			x.LayoutOracle("../lean/.lake/build/bin/drv_c03")
+		}
+		r.Finish()
+	}
 	if lines := r.ReplayLines(); lines != nil {
 		x.Replay(lines)
-		r.Finish()
+		finish()
 
 		return
 	}
@@ -278,5 +284,5 @@ func Main(prop string, rule string, plan Plan, casesQuick int, corpus [][]string
 		p.Big = rng.Chance(1, 10)
 		x.GenCase(rng, sub, fmt.Sprintf("type gen %d %d", tseed, depth), p)
 	}
-	r.Finish()
+	finish()
 }
